@@ -329,8 +329,12 @@ func (x *Exec) rangeNext(st *State, i *ssa.Next) {
 	}
 	mt := it.t.Underlying().(*types.Map)
 	m := x.scalar(it.x)
-	key := x.freshValue("range_k", tu.At(1).Type())
-	x.assumeRanges(st, key, tu.At(1).Type())
+	keyT := tu.At(1).Type()
+	if b, isB := keyT.(*types.Basic); isB && b.Kind() == types.Invalid {
+		keyT = mt.Key() // key not used by the loop: the tuple carries an invalid type
+	}
+	key := x.freshValue("range_k", keyT)
+	x.assumeRanges(st, key, keyT)
 	kt := x.mapKeyTerm(st, mt, key)
 	_, ph := x.mapPresent(st, mt)
 	x.hyps = append(x.hyps, c.Implies(ok, c.And(c.Neq(m, c.Int(0)), c.Select(c.Select(ph, m), kt))))
